@@ -293,7 +293,7 @@ def enum_cells(tier):
 
 def strat_hist(tier):
     op = st.one_of(st.tuples(st.just("push"), st.sampled_from([r for r in REPLACEMENTS]), st.sampled_from(["object", "string"])).map(list),
-                   st.just(["pop"]), st.just(["pop"]), st.just(["stopall"]), st.tuples(st.just("call"), st.lists(st.integers(0, 4), min_size=1, max_size=2), st.booleans()).map(list))
+                   st.just(["pop"]), st.just(["pop"]), st.just(["stopall"]), st.just(["restart"]), st.tuples(st.just("call"), st.lists(st.integers(0, 4), min_size=1, max_size=2), st.booleans()).map(list))
     return st.fixed_dictionaries({"target": st.sampled_from(TARGETS), "ops": st.lists(op, min_size=2, max_size=10 if tier == "quick" else 20)})
 
 
@@ -307,6 +307,9 @@ def check_hist(case, ctx):
     stack = []      # (patcher, installed object, rec, result_fn, kind)
     viol = []
     depth_max = 0
+    stopped = None
+    reactivated = False
+    first_rec, first_fn, keep = {}, {}, []
 
     def bad(clause, msg):
         viol.append(("C19." + clause, "%s, after ops %r: %s" % (target, case["ops"][:step + 1], msg)))
@@ -324,13 +327,45 @@ def check_hist(case, ctx):
                     break
                 if default:
                     m.side_effect = side
+                first_rec[id(p)] = rec
+                first_fn[id(p)] = result_fn
+                keep.append(p)
                 stack.append((p, owner.__dict__[attr], rec, result_fn, op[1]))
                 depth_max = max(depth_max, len(stack))
+            elif op[0] == "restart":
+                # the same patcher object is activated again after it was stopped
+                if stopped is None:
+                    continue
+                p, kind, side, default = stopped
+                stopped = None
+                rec = Recorder()
+                kw2, result_fn = make_replacement(kind, "again%d" % len(stack), rec)
+                if kind in ("default", "new_callable_mock", "new_callable_object"):
+                    # the patcher creates a fresh replacement on every activation
+                    m = p.start()
+                    if default:
+                        m.side_effect = kw2["_side_effect"]
+                    elif kind == "new_callable_mock":
+                        m.side_effect = lambda *a, **k: (rec.calls.append((a, k)), result_fn(a, k))[1]
+                    else:
+                        # a fresh instance of the callable-object class records into the first recorder: re-point it
+                        rec = first_rec[id(p)]
+                        result_fn = first_fn[id(p)]
+                    stack.append((p, owner.__dict__[attr], rec, result_fn, kind))
+                    depth_max = max(depth_max, len(stack))
+                    reactivated = True
+                else:
+                    p.start()
+                    stack.append((p, owner.__dict__[attr], first_rec[id(p)], first_fn[id(p)], kind))
+                    depth_max = max(depth_max, len(stack))
+                    reactivated = True
             elif op[0] == "pop":
                 if not stack:
                     continue
-                p = stack.pop()[0]
+                ent = stack.pop()
+                p = ent[0]
                 p.stop()
+                stopped = (p, ent[4], None, ent[4] == "default")
                 want = stack[-1][1] if stack else original
                 if owner.__dict__[attr] is not want:
                     bad("restore", "after leaving nesting level %d the attribute is %r, expected the %s" % (len(stack) + 1, owner.__dict__[attr], "enclosing replacement" if stack else "original object"))
@@ -340,6 +375,7 @@ def check_hist(case, ctx):
                 n_levels = len(stack)
                 patch.stopall()
                 del stack[:]
+                stopped = None
                 if owner.__dict__[attr] is not original:
                     bad("restore", "after patch.stopall() with %d overlapping started patches the attribute is %r, not the original object" % (n_levels, owner.__dict__[attr]))
             else:
@@ -371,6 +407,7 @@ def check_hist(case, ctx):
             bad("restore", "after every patch ended the attribute is not the original object")
         sys.modules.pop("c19_target_mod", None)
     ctx.label("depth>=2", depth_max >= 2)
+    ctx.label("same-patcher-activated-again", reactivated)
     ctx.label("stopall-with-overlap", any(o[0] == "stopall" for o in case["ops"]) and depth_max >= 2)
     ctx.label("target=" + target)
     ctx.nontrivial(case, depth_max >= 1)
